@@ -296,23 +296,25 @@ def run_kani(harnesses, scratch):
     env = dict(os.environ)
     env["CARGO_NET_OFFLINE"] = "true"
     env["CARGO_TARGET_DIR"] = os.path.join(scratch, "kani-target")
+    cmd = ["cargo", "kani", "-Z", "function-contracts", "-Z", "stubbing", "--output-format", "terse"]
+    for h in harnesses:
+        cmd += ["--harness", h]
+    t0 = time.time()
+    p = subprocess.run(cmd, cwd=work, capture_output=True, text=True, env=env, timeout=3600)
+    out = p.stdout + "\n" + p.stderr
+    wall = time.time() - t0
     results = []
-
-    def one(h):
-        cmd = ["cargo", "kani", "-Z", "function-contracts", "-Z", "stubbing", "--harness", h, "--output-format", "terse"]
-        t0 = time.time()
-        p = subprocess.run(cmd, cwd=work, capture_output=True, text=True, env=env, timeout=3600)
-        out = p.stdout + "\n" + p.stderr
-        ok = "VERIFICATION:- SUCCESSFUL" in out
-        failed = "VERIFICATION:- FAILED" in out
-        checks = re.findall(r"\*\* (\d+) of (\d+) failed", out)
-        return {"harness": h, "ok": ok, "failed": failed, "wall": time.time() - t0, "cmd": " ".join(cmd), "tail": out[-3000:], "checks": checks}
-
-    # first harness builds the crate; then the rest in parallel
-    results.append(one(harnesses[0]))
-    if len(harnesses) > 1:
-        with concurrent.futures.ThreadPoolExecutor(max_workers=6) as ex:
-            results += list(ex.map(one, harnesses[1:]))
+    # one section per harness: "Checking harness <path>..." ... "VERIFICATION:- <verdict>"
+    sections = re.split(r"Checking harness ", out)
+    seen = {}
+    for sec in sections[1:]:
+        name = sec.split("...")[0].strip().split("::")[-1]
+        ok = "VERIFICATION:- SUCCESSFUL" in sec
+        failed = "VERIFICATION:- FAILED" in sec
+        m = re.search(r"\*\* (\d+) of (\d+) failed", sec)
+        seen[name] = {"harness": name, "ok": ok, "failed": failed, "wall": wall / max(1, len(harnesses)), "cmd": " ".join(cmd), "tail": sec[-2500:], "checks": [m.group(1), m.group(2)] if m else None}
+    for h in harnesses:
+        results.append(seen.get(h, {"harness": h, "ok": False, "failed": False, "wall": 0.0, "cmd": " ".join(cmd), "tail": out[-2500:], "checks": None}))
     return results
 
 
